@@ -220,9 +220,12 @@ Definition inverse_ok (tol : Q) (cov N : mat) : bool :=
 Definition chi2_clauses (b sq : vec) (A : mat) (ia : vec) (ichi2 : Q) (iyfit : vec) (idof : Z) (icovar : mat) (ivar : vec) : list bool :=
   let nstar := ncols A in
   let D := cc_data A sq b in
+  let S0 := chi2r D (zeros nstar) in                             (* sum w b^2 : the scale of chi-square *)
+  (* every comparison is relative (to the terms of the equation, to the largest entry, to S0): the clauses mean the
+     same whatever the absolute scale of sqivar and bvec *)
   [ grad_small tol9 nstar D ia                                   (* 0 weighted normal equations *)
-  ; vclose (qclose_rel tol9) iyfit (mat_vec A ia)                (* 1 fitted values *)
-  ; qclose_rel tol8 ichi2 (chi2r D ia)                           (* 2 chi-square of the returned coefficients *)
+  ; vclose_max tol9 iyfit (mat_vec A ia)                         (* 1 fitted values *)
+  ; qclose_s tol8 S0 ichi2 (chi2r D ia)                          (* 2 chi-square of the returned coefficients *)
   ; Z.eqb idof (cc_dof sq nstar)                                 (* 3 degrees of freedom *)
   ; inverse_ok tol8 icovar (normal_mat nstar D)                  (* 4 covariance = inverse of A^T W A *)
   ; meq_bool icovar (transpose icovar)                           (* 5 symmetric *)
@@ -231,7 +234,7 @@ Definition chi2_clauses (b sq : vec) (A : mat) (ia : vec) (ichi2 : Q) (iyfit : v
          (wls_solve_optimal; chi2r = chi2 by chi2r_correct): decides optimality also for badly scaled systems, where a truncated
          pseudo-inverse is off by far more than rounding *)
   ; match wls_solve nstar D with
-    | Some xopt => Qle_bool (chi2r D ia) (chi2r D xopt * (1 + tol6) + tol6 * tol6)
+    | Some xopt => Qle_bool (chi2r D ia) (chi2r D xopt * (1 + tol6) + tol6 * tol6 * S0)
     | None => false
     end ].
 Definition chi2_ok (b sq : vec) (A : mat) (ia : vec) (ichi2 : Q) (iyfit : vec) (idof : Z) (icovar : mat) (ivar : vec) : bool :=
@@ -367,9 +370,10 @@ Definition run_case (c : case) : Z :=
   | CChi2 b sq A ia ichi2 iyfit idof icovar ivar =>
       let agree := match computechi2 b sq A with
                    | None => false
-                   | Some r => vclose (qclose_rel tol8) ia (c_acoeff r) && qclose_rel tol8 ichi2 (c_chi2 r)
-                               && vclose (qclose_rel tol8) iyfit (c_yfit r) && Z.eqb idof (c_dof r)
-                               && mclose (qclose_rel tol8) icovar (c_covar r) && vclose (qclose_rel tol8) ivar (c_var r)
+                   | Some r => vclose_max tol8 ia (c_acoeff r)
+                               && qclose_s tol8 (chi2r (cc_data A sq b) (zeros (ncols A))) ichi2 (c_chi2 r)
+                               && vclose_max tol8 iyfit (c_yfit r) && Z.eqb idof (c_dof r)
+                               && mclose_max tol8 icovar (c_covar r) && vclose_max tol8 ivar (c_var r)
                    end in
       (b2z 1 agree + b2z 2 (chi2_ok b sq A ia ichi2 iyfit idof icovar ivar))%Z
   | CPcomp x st cv sd0 sdc ievals icoef ider ivariance =>
